@@ -29,6 +29,7 @@ Definition cref_eqb (a b : cref) : bool := str_eqb (fst a) (fst b) && path_eqb (
 
 Inductive bkind := BPlain | BHex | BB64.          (* bytes, XmlHexBinary, XmlBase64Binary *)
 Inductive xkind := KDate | KTime | KDateTime.     (* XmlDate, XmlTime, XmlDateTime *)
+Inductive skind := SDate | STime | SDateTime.     (* naive datetime.date / .time / .datetime *)
 
 Inductive value :=
 | VNone
@@ -42,6 +43,7 @@ Inductive value :=
 | VXml (k : xkind) (args : list Z) (off : option Z)
 | VDuration (d : str)
 | VPeriod (d : str)
+| VStd (k : skind) (args : list Z)        (* all components: 3 / 4 / 7 *)
 | VEnum (c : cref) (m : str)
 | VList (l : list value)
 | VTuple (l : list value)
@@ -164,6 +166,8 @@ Definition text_of (v : value) : option str :=
 
 Definition xkind_eqb (a b : xkind) : bool :=
   match a, b with KDate, KDate => true | KTime, KTime => true | KDateTime, KDateTime => true | _, _ => false end.
+Definition skind_eqb (a b : skind) : bool :=
+  match a, b with SDate, SDate => true | STime, STime => true | SDateTime, SDateTime => true | _, _ => false end.
 Definition bkind_eqb (a b : bkind) : bool :=
   match a, b with BPlain, BPlain => true | BHex, BHex => true | BB64, BB64 => true | _, _ => false end.
 
@@ -184,6 +188,7 @@ Fixpoint veq (nan_ok : bool) (a b : value) {struct a} : bool :=
       | _ => false
       end
   | VPeriod d => match b with VPeriod d' => str_eqb d d' | _ => false end
+  | VStd k args => match b with VStd k' args' => skind_eqb k k' && lZ_eqb args args' | _ => false end
   | VEnum c m => match b with VEnum c' m' => cref_eqb c c' && str_eqb m m' | _ => false end
   | VList l =>
       match b with
@@ -261,6 +266,7 @@ Fixpoint value_eqb (a b : value) {struct a} : bool :=
       end
   | VDuration x => match b with VDuration y => str_eqb x y | _ => false end
   | VPeriod x => match b with VPeriod y => str_eqb x y | _ => false end
+  | VStd k args => match b with VStd k' args' => skind_eqb k k' && lZ_eqb args args' | _ => false end
   | VEnum c m => match b with VEnum c' m' => cref_eqb c c' && str_eqb m m' | _ => false end
   | VList l =>
       match b with
